@@ -44,6 +44,7 @@ TABLE = [
     ("C07x", "stats", [], "TV_Stats", 200),
     ("C15x", "meshb", [], "TV_MeshB", 300),
     ("C11x", "rect", None, "TV_Rect", None),
+    ("C09x", "vecalg", [], "TV_VecAlg", 400),
 ]
 MAXREC = 400
 # record fields that re-encode the ARGUMENTS of the call (decoded f32 records, echoed inputs):
